@@ -450,10 +450,40 @@ func remOnlyComparedSymmetrically(fn *ssa.Function, v *ssa.BinOp) bool {
 // Returns the number of sites.
 func (b *B) CheckDFloor(rule string, fnNames ...string) int {
 	n := 0
+	// the named functions form a group together with their anonymous functions
+	// and the private helpers all of whose callers are in the group (an
+	// extracted helper is part of the function it was extracted from); the
+	// vacuity floor applies to the group
+	var group []*ssa.Function
+	named := map[*ssa.Function]string{}
+	var first *ssa.Function
 	for _, name := range fnNames {
+		if strings.Contains(name, "$") {
+			if fn := b.A.W.Fn(name); fn != nil {
+				group = append(group, fn)
+				named[fn] = name
+			}
+			continue // an anonymous function may have been turned into a helper
+		}
 		fn := b.Fn(rule, name)
 		if fn == nil {
 			continue
+		}
+		if first == nil {
+			first = fn
+		}
+		group = append(group, fn)
+		named[fn] = name
+	}
+	if first == nil {
+		return 0
+	}
+	group = b.A.W.WithPrivateHelpers(group)
+	total := 0
+	for _, fn := range group {
+		name := named[fn]
+		if name == "" {
+			name = b.A.W.FuncName(fn)
 		}
 		sites := b.X.DFloor(fn)
 		per := map[string]int{}
@@ -467,9 +497,10 @@ func (b *B) CheckDFloor(rule string, fnNames ...string) int {
 			}
 			n++
 		}
-		if len(sites) == 0 {
-			b.R.Undecided(rule, name+"/sites", b.pos(fn), "expected at least one float→int conversion or integer division here (vacuity floor)")
-		}
+		total += len(sites)
+	}
+	if total == 0 {
+		b.R.Undecided(rule, fnNames[0]+"/sites", b.pos(first), "expected at least one float→int conversion or integer division in "+strings.Join(fnNames, ", ")+" or their private helpers (vacuity floor)")
 	}
 	return n
 }
